@@ -218,7 +218,7 @@ func TestC06(t *testing.T) {
 var profC13 = &hist.Profile{
 	Name: "C13", MinOps: 10, MaxOps: 40, Topics: 2, Subs: 3,
 	W: map[string]int{
-		hist.OpPublish: 18, hist.OpPull: 20, hist.OpAck: 14, hist.OpAdvance: 8, hist.OpSeekTime: 12, hist.OpSnapshot: 7, hist.OpSeekSnap: 9, hist.MacroSnapRoundtrip: 2,
+		hist.OpPublish: 18, hist.OpPull: 20, hist.OpAck: 14, hist.OpAdvance: 8, hist.OpSeekTime: 12, hist.OpSnapshot: 7, hist.OpSeekSnap: 9, hist.MacroSnapRoundtrip: 2, hist.MacroDoubleSeek: 2,
 		hist.OpDelSnapshot: 1, hist.OpCreateSub: 4, hist.OpModAck: 2, hist.OpNack: 2,
 	},
 	Ordered: 20, Keys: []string{"", "K1"}, Filters: []string{"", "", `attributes:x`},
